@@ -29,6 +29,7 @@ type RuleSet struct {
 	ID          string
 	Explanation string   // rules applied and what they do not cover
 	Assumptions []string // trusted base
+	Arch386     bool     // thorough tier also analyses GOARCH=386 (int is 32-bit)
 	Run         func(c *Ctx)
 }
 
